@@ -3,7 +3,7 @@ from ..extract import AnalysisBroken
 from ..facts import fmt_term, CALLS
 from ..flow import Engine, Summaries
 from ..report import ok, bad
-from ..rules_layout import r_layout
+from ..rules_layout import constant_by_role, r_layout
 from ..rules_narrow import r_narrow
 from ..rules_stream import r_guard_exact, is_store
 from ..rules_sib import P, returns
@@ -59,7 +59,18 @@ def version_and_trim(F, S):
     elif algos:
         out.append(bad("R-SIB", inst, fn.loc(fn.body), fn.qn, "the surviving sources keep their relative order (tile mappings refer to them by position)", "uses %s" % ", ".join(algos)))
     else:
-        raise AnalysisBroken("TrimTilesetSources: removal algorithm not recognised")
+        # erase in place: the only operation that changes the container is vector::erase (which closes the gap and keeps
+        # the order of everything else); nothing swaps or assigns elements
+        ts = ("mem", ("this",), "tilesetSources")
+        mut = {nd.get("fname") for nd in fn.nodes if nd["k"] == "CXXMemberCallExpr" and "obj" in nd and fn.term(nd["obj"]) == ts
+               and not nd.get("mconst") and nd.get("fname") not in ("begin", "end", "size", "empty")}
+        swaps = [nd for nd in fn.nodes if nd["k"] in CALLS and (nd.get("fname") or "") in ("swap", "iter_swap", "move", "move_backward", "copy", "rotate")]
+        stores = [nd for nd in fn.nodes if (is_store(nd) and fn.term(fn.kids(nd["id"])[0])[0] in ("idx", "un", "mem"))
+                  or (nd["k"] == "CXXOperatorCallExpr" and nd.get("op") == "=" and nd.get("args") and fn.term(nd["args"][0])[0] in ("idx", "un", "mem"))]
+        if mut == {"erase"} and not swaps and not stores:
+            out.append(ok("R-SIB", inst, fn.loc(fn.body), fn.qn, "the surviving sources keep their relative order (tile mappings refer to them by position)", "erase in place"))
+        else:
+            raise AnalysisBroken("TrimTilesetSources: removal algorithm not recognised")
     # the predicate removed is IsEmpty()
     lam = [f for f in F.functions.values() if f.d.get("lambda") and "Map.cpp" in f.file]
     good = False
@@ -69,6 +80,34 @@ def version_and_trim(F, S):
             t = f.term(r[0]["value"])
             arg = ("var", f.params[0]["n"], f.params[0]["d"]) if f.params else None
             good = good or (arg is not None and t == F.method_value("OP2Utility::TilesetSource::IsEmpty", arg))
+    if not good and not lam:
+        # erase-in-place loop: every erase(it) is on the branch where (*it).IsEmpty() holds, its result continues the walk,
+        # the other branch only steps on, and the walk runs from begin() to end()
+        from ..rules_sib import enclosing_if_cond
+        ts = ("mem", ("this",), "tilesetSources")
+        er = [nd for nd in fn.nodes if nd["k"] == "CXXMemberCallExpr" and nd.get("fname") == "erase" and "obj" in nd and fn.term(nd["obj"]) == ts]
+        loops = [nd for nd in fn.nodes if nd["k"] in ("WhileStmt", "ForStmt")]
+        okk = len(er) == 1 and len(er[0].get("args", [])) == 1 and len(loops) == 1
+        if okk:
+            a = fn.term(er[0]["args"][0])
+            while a[0] == "ctor" and len(a[2]) == 1:
+                a = a[2][0]
+            cid, in_then = enclosing_if_cond(fn, er[0]["id"])
+            okk = a[0] == "var" and cid is not None and in_then and fn.term(cid) == F.method_value("OP2Utility::TilesetSource::IsEmpty", ("un", "*", a))
+            # the erase's result is assigned back to the iterator; the iterator starts at begin() and the loop runs to end()
+            asg = [nd for nd in fn.nodes if nd["k"] == "CXXOperatorCallExpr" and nd.get("op") == "=" and fn.term(nd["args"][0]) == a
+                   and fn.strip(nd["args"][1]) == er[0]["id"]]
+            inc = [nd for nd in fn.nodes if nd["k"] in ("CXXOperatorCallExpr", "UnaryOperator") and nd.get("op") == "++"]
+            init = fn.local_value_at(a, loops[0]["id"]) if okk else None
+            cond = fn.term(loops[0]["cond"]) if "cond" in loops[0] else None
+            okk = okk and len(asg) == 1 and len(inc) == 1 and \
+                cond == ("opcall", "!=", (a, ("call", "std::vector<OP2Utility::TilesetSource>::end", ts, ()))) and \
+                any(d.get("d") == a[2] and "init" in d and fn.term(d["init"]) == ("call", "std::vector<OP2Utility::TilesetSource>::begin", ts, ())
+                    for nd in fn.nodes if nd["k"] == "DeclStmt" for d in nd.get("decls", []))
+            if okk:
+                ic, ithen = enclosing_if_cond(fn, inc[0]["id"])
+                okk = ic == cid and not ithen
+        good = okk
     inst = M + "::TrimTilesetSources#predicate"
     if good:
         out.append(ok("R-SIB", inst, fn.loc(fn.body), fn.qn, "the entries removed are exactly those for which IsEmpty() holds", "remove_if(IsEmpty)"))
@@ -158,6 +197,17 @@ def header_fields(F, S):
                         multi.add(l[2])
                         continue
                     got[l[2]] = rf.term(rf.kids(nd["id"])[1])
+            elif nd["k"] == "CXXMemberCallExpr" and "obj" in nd and rf.term(nd["obj"])[0] == "var" and len(nd.get("args", [])) == 1:
+                # a plain setter (`map.SetVersionTag(v)`: one store, member = parameter) is that store
+                for cal in F.callees(nd):
+                    sts = [x for x in cal.nodes if is_store(x)]
+                    if len(cal.params) == 1 and len(sts) == 1 and len(cal.kids(sts[0]["id"])) == 2 and sts[0].get("op") == "=":
+                        l2, r2 = cal.term(cal.kids(sts[0]["id"])[0]), cal.term(cal.kids(sts[0]["id"])[1])
+                        if l2[0] == "mem" and l2[1] == ("this",) and r2 == P(cal, 0) and not S.writes(cal) - {("this", l2[2])}:
+                            if l2[2] in got:
+                                multi.add(l2[2])
+                            else:
+                                got[l2[2]] = rf.term(nd["args"][0])
         for nd in rf.nodes:
             if nd["k"] == "DeclStmt":
                 for d in nd.get("decls", []):
@@ -205,7 +255,8 @@ def check(F, run, tier):
     run.add(obs)
     run.add(r_layout(F, records=["OP2Utility::MapHeader", "OP2Utility::Tile", "OP2Utility::TileMapping", "OP2Utility::TerrainType",
                                  "OP2Utility::Rect", "OP2Utility::Range16"],
-                     constants=["OP2Utility::MapHeader::MinMapVersion", "OP2Utility::MapHeader::CurrentMapVersion", "OP2Utility::tilesetHeader"]))
+                     constants=["OP2Utility::MapHeader::MinMapVersion", "OP2Utility::MapHeader::CurrentMapVersion",
+                                ("OP2Utility::tilesetHeader", constant_by_role(F, "OP2Utility::tilesetHeader", "OP2Utility::Map::ReadTilesetHeader"))]))
     k = 0
     swept = set()
     for q, np_, host in (("OP2Utility::Map::CreateHeader", 0, None), ("OP2Utility::Map::WriteTileGroups", 2, None),
